@@ -3,7 +3,7 @@ import BreezyVerif.Model.C11
 /-
 C11 driver.
 
-  add <fmt B|G> <recurse T|F> <names> <layout>
+  add <fmt B|G|H> <recurse T|F> <names> <layout>      (H = git tree whose smart_add refuses control files)
      names  = tree-relative paths joined by `,` (`.` = the tree root)
      layout = as in the C46 driver: entries joined by `;` (parents first, `-` = empty),
               entry = `<path>|<kind f|d|D|l>|<flags versioned ignored valid helper>`
@@ -43,8 +43,9 @@ def showPaths (ps : List Path) : String :=
   let l := (ps.map joinPath).mergeSort (fun a b => decide (a ≤ b))
   if l.isEmpty then "-" else ";".intercalate l
 
-def parseFmt (s : String) : Option Fmt :=
-  if s == "B" then some .bzr else if s == "G" then some .git else none
+def parseFmt (s : String) : Option (Fmt × Bool) :=
+  if s == "B" then some (.bzr, false) else if s == "G" then some (.git, false)
+  else if s == "H" then some (.git, true) else none
 
 def Err.toString : Err → String
   | .forbiddenControlFile => "E:ForbiddenControlFile"
@@ -53,8 +54,8 @@ def Err.toString : Err → String
 def handle : List String → String
   | ["add", fmt, rec, names, layout] =>
     match parseFmt fmt, parseBool rec, (names.splitOn ",").mapM parsePath, parseLayout layout with
-    | some fmt, some rec, some names, some f =>
-      match smartAdd { fmt := fmt, names := names, recurse := rec } f with
+    | some (fmt, refuse), some rec, some names, some f =>
+      match smartAdd { fmt := fmt, names := names, recurse := rec, gitRefusesCtl := refuse } f with
       | .error e => e.toString
       | .ok f' =>
         let before := versionedPaths f
